@@ -26,6 +26,9 @@ PY = os.path.join(env.VERIF, '.venv', 'bin', 'python')
 NCPU = int(os.environ.get('VERIF_JOBS', '0')) or min(16, os.cpu_count() or 4)
 
 
+REPLAY_CAP = 6          # reproduced violations reported per obligation; further solver counterexamples of that obligation are listed, not replayed
+
+
 @dataclass
 class Ob:
     name: str
@@ -127,6 +130,7 @@ def main(argv=None):
     lines = []
     ev_obs = []
     n_slices = n_discharged = n_inconcl = n_viol = n_known = 0
+    replayed_violations, capped = {}, {}
     paths_total = 0
     queries_total = 0
     solver_s = 0.0
@@ -206,6 +210,12 @@ def main(argv=None):
             if 'counterexample' in states:
                 ei = states.index('counterexample')
                 r = rs[ei]
+                if not ob.finding and replayed_violations.get(ob.name, 0) >= REPLAY_CAP:
+                    # enough reproduced violations of this obligation have been reported; further solver counterexamples are not replayed
+                    n_inconcl += 1
+                    rec['inconclusive'].append({'slice': sl, 'why': 'solver counterexample not replayed (replay cap %d reached for this obligation)' % REPLAY_CAP, 'cex': r.get('cex')})
+                    capped[ob.name] = capped.get(ob.name, 0) + 1
+                    continue
                 rp = run_worker('replay', ob, sl, json.dumps(r.get('cex')), 600, envs[ei])
                 if not rp.get('reproduced'):
                     harness_errors.append('%s slice %s: solver counterexample %s did not reproduce on the real code: %s' % (
@@ -230,6 +240,7 @@ def main(argv=None):
                                'env': envs[ei], 'cex': r.get('cex'), 'detail': r.get('detail'), 'replay_detail': rp.get('detail'),
                                'how': './check %s --replay %s' % (pid, path)}, f, indent=1, default=repr)
                 n_viol += 1
+                replayed_violations[ob.name] = replayed_violations.get(ob.name, 0) + 1
                 lines.append('VIOLATION property=%s replay=%s' % (pid, path))
                 lines.append('  obligation=%s slice=%s cex=%s' % (ob.name, json.dumps(sl), json.dumps(r.get('cex'), default=repr)[:400]))
                 lines.append('  ' + str(rp.get('detail')).strip().splitlines()[-1][:300] if rp.get('detail') else '')
@@ -257,6 +268,8 @@ def main(argv=None):
             pass
     for ln in lines:
         print(ln)
+    for name, k in capped.items():
+        print('NOTE obligation=%s: %d further solver counterexamples not replayed (cap %d); they are listed as inconclusive in the evidence' % (name, k, REPLAY_CAP))
     for he in harness_errors:
         print('HARNESS-ERROR ' + he)
     wall = time.time() - t0
